@@ -563,6 +563,16 @@ def shard_daily_long(item, res, ctx):
     for func in CHANGE:
         for shift in (-1,) + KW_SHIFTS:
             eval_change(ss, func, shift, res, method=(func == "diff"))
+    # forward cumulation with keyword shifts over the long series: the whole range, the part after the first year end,
+    # the part from day 366 on (yoy has a reference there) and a span inside the last year
+    e0 = start + L - 1
+    spans = sorted({(start, e0), (start + 30, e0), (start + 366, e0), (start + 380, min(e0, start + 420)), (e0 - 20, e0)})
+    for func in CUMFUNCS:
+        for kw in KW_SHIFTS:
+            for a, b in spans:
+                if start <= a <= b <= e0:
+                    eval_cum_kw(ss, func, kw, a, b, res)
+                    res.count("cum_keyword_long_daily")
     res.sample({"part": "change", "spec": spec, "functions": sorted(CHANGE), "shifts": [-1] + list(KW_SHIFTS)})
 
 
@@ -938,7 +948,7 @@ def plan(ctx):
     for freq in FREQS:
         for start in starts_of(freq):
             invalid.append((C.NAMES[freq], start, min(5, max_len(freq)), rot))
-    daily = [(dt.date(2019, 12, 30).toordinal(), 370, rot), (dt.date(2020, 12, 30).toordinal(), 368, rot)]
+    daily = [(dt.date(2019, 12, 30).toordinal(), 370, rot), (dt.date(2020, 12, 30).toordinal(), 368, rot), (dt.date(2019, 12, 10).toordinal(), 430, rot)]
     return change, cum, invalid, daily
 
 
@@ -970,6 +980,7 @@ def run(ctx, total, info):
         "cum_forward_nontrivial": (cnt.get("cum_forward_nontrivial", 0), 15000 if q else 400000),
         "cum_keyword_start_of_year_inside_span": (cnt.get("cum_keyword_start_of_year_inside_span", 0), 2000),
         "achange_with_sign_change": (cnt.get("achange_with_sign_change", 0), 3000),
+        "cum_keyword_long_daily": (cnt.get("cum_keyword_long_daily", 0), 150),
         "cum_backward_nontrivial": (cnt.get("cum_backward_nontrivial", 0), 13000 if q else 390000),
         "tty_start_of_year_asserted": (cnt.get("tty_start_of_year_asserted", 0), 7500 if q else 150000),
         "keyword_cross_year_values": (cnt.get("keyword_cross_year_values", 0), 130000 if q else 3400000),
